@@ -202,4 +202,36 @@ PROPS = {
             sub("natural", "c19_atomic", 3000, 40000),
             sub("inject", "c19_atomic", 800, 30000, qw=4, tw=8),
         ]),
+    "C08": dict(
+        level="exploration",
+        rule=("an instance of every class with a neutral-file representation (Db, DbGrid, DbLine, DbGraphO, DbMeshTurbo/Standard, Model, the five "
+              "neighbourhoods, Vario, Polygons/PolyElem/PolyLine2D/Faults, the four anamorphoses, the three meshings, Table, Rule/RuleShift/RuleShadow, "
+              "FracEnviron) is built through the public API from rapidcheck-generated parameters (values incl. NA, signed zeros, 1e-300..1e29, 15-digit "
+              "decimals and full-precision doubles; optional blocks rotation/anisotropy/z-limits/drifts/masks on and off); its text is reloaded into a fresh "
+              "object; every stored getter agrees to 1e-14 relative (NA stays NA), generated queries (covariances at lags, select() on a generated Db, "
+              "variogram vectors, inside(), transforms, apices, facies) are answered identically, writing the reloaded object gives the same text, and the "
+              "same through dumpToNF/createFromNF under four container/prefix settings; Zycor and IfpEn files are read back with the same geometry and values "
+              "within the printed precision; non-trivial = the object has >=2 dimensions or components and a non-default optional block; distinct = hash of the case text"),
+        assumptions=["getters 1e-14 relative; quantities recomputed from stored ones get the number of roundings involved (see agents/C08/REPORT.txt)",
+                     "fields the format has no slot for are not asserted (cross-validation flag of a neighbourhood, Rule proportions, transient switches)",
+                     "a query which the ORIGINAL object refuses is skipped, not failed",
+                     "Vario variance matrices are generated symmetric (the text is written/read in transposed index order)",
+                     "ranges of one Model stay within 3 decades"],
+        subs=[
+            sub("db", "c08_serialize", 1200, 40000, qw=1, tw=2),
+            sub("dbgrid", "c08_serialize", 1200, 40000, qw=1, tw=2),
+            sub("dbline", "c08_serialize", 1200, 40000, qw=1, tw=2),
+            sub("dbgraph", "c08_serialize", 1200, 40000, qw=1, tw=2),
+            sub("mesh", "c08_serialize", 1200, 40000, qw=1, tw=2),
+            sub("dbmesh", "c08_serialize", 1200, 40000, qw=1, tw=2),
+            sub("model", "c08_serialize", 1200, 40000, qw=1, tw=2),
+            sub("neigh", "c08_serialize", 1200, 40000, qw=1, tw=2),
+            sub("vario", "c08_serialize", 1200, 40000, qw=1, tw=2),
+            sub("polygons", "c08_serialize", 1200, 40000, qw=1, tw=2),
+            sub("table", "c08_serialize", 1200, 40000, qw=1, tw=2),
+            sub("frac", "c08_serialize", 1200, 40000, qw=1, tw=2),
+            sub("anam", "c08_serialize", 1200, 40000, qw=1, tw=2),
+            sub("rule", "c08_serialize", 1200, 40000, qw=1, tw=2),
+            sub("gridfmt", "c08_serialize", 1200, 40000, qw=1, tw=2),
+        ]),
 }
